@@ -7,7 +7,7 @@ N_THOROUGH = 30000
 SHARD = 200
 SHRINK_KEYS = ["terms"]
 RULE = ("random polynomials (2-6 variables quick / 2-8 thorough, degree <= 5 / 6, terms sharing a common core so that pairs overlap, "
-        "constants, variables repeated up to 6 times inside a term, the same monomial under two key orders, labels that collide with the "
+        "constants, integer labels mixed with their str() forms (0 and '0'), variables repeated up to 6 times inside a term, the same monomial under two key orders, labels that collide with the "
         "invented names 'u*v' / 'auxu,v' incl. namesakes of the pairs of a higher-order term that occur only in low-order terms), both vartypes, strengths {1/2,1,2,3}; kinds: reduce_binary_polynomial, make_quadratic (dict and "
         "BinaryPolynomial input; bqm= unset / same vartype with or without vartype= / other vartype, with linear biases, offset and couplings on "
         "the polynomial's pairs and on extra variables), make_quadratic_cqm (cqm= unset / holding an objective), HigherOrderComposite(ExactSolver or a child returning float32 / integer energies) sample_poly/sample_hising/sample_hubo with "
